@@ -65,10 +65,20 @@ def plan_cases(ctx):
     # every Z of the property at least once per run
     zs = list(range(1, 19))
     rng.shuffle(zs)
+    n_multi = n_2d = 0
     for i, rep in enumerate(reps):
         stream = "well" if rng.random() < 0.6 else "wide"
+        # profile structures (shared n_e/t_e with different donor, shared n_e, shared t_e, constant donor, 2-D separable)
+        # are dealt round-robin over the multi-point cases so that every class occurs in every run of both tiers
+        structure = "indep"
+        if rep in ("array2d", "fun2d", "interp2d"):
+            structure = ["sep2d", "indep", "same_net", "sep2d", "const_net", "indep", "same_ne", "const_donor", "same_te"][n_2d % 9]
+            n_2d += 1
+        elif rep not in ("scalar", "fun1d_scalar"):
+            structure = ["same_net", "indep", "const_net", "same_ne", "indep", "same_te", "const_donor", "indep"][n_multi % 8]
+            n_multi += 1
         cases.append(impl.gen_case(rng, i, rep, stream, z=zs[i] if i < 18 else None,
-                                   force_donor=rep in ("eqmap", "interp1d", "interp2d") and i % 2 == 0))
+                                   force_donor=rep in ("eqmap", "interp1d", "interp2d") and i % 2 == 0, structure=structure))
     return cases
 
 
@@ -180,6 +190,13 @@ def run(ctx):
                             found=True)
             continue
         case["points"] = pts
+        dist.setdefault("structure", {})
+        dist["structure"][case.get("structure", "indep")] = dist["structure"].get(case.get("structure", "indep"), 0) + 1
+        seen_net = {}
+        for pt in pts:
+            seen_net.setdefault((pt["n_e"], pt["t_e"]), set()).add(pt["n_d"])
+        dist["points_sharing_ne_te_with_other_donor"] = dist.get("points_sharing_ne_te_with_other_donor", 0) + sum(
+            len(v) for v in seen_net.values() if len(v) > 1)
         for key, val in (("rep", case["rep"]), ("stream", case["stream"]), ("Z", str(case["Z"])),
                          ("donor_mode", case["donor_mode"]), ("species", str(case["n_species"]))):
             dist[key][val] = dist[key].get(val, 0) + 1
@@ -217,7 +234,7 @@ def run(ctx):
                 names.append(nm)
                 lines.append(point_def(nm, pt))
             for k, pt in enumerate(case["points"]):
-                outs = [out_term(o, interp and "@" in o["src"], ztol_of(case)) for o in pt["outs"]]
+                outs = [out_term(o, interp and "@" in o["src"], ztol_of(case)) for o in pt["outs"] if o.get("coq", True)]
                 if pt["matrix"] is not None and (len(pt["ion"]) <= 10 or k == 0):
                     outs.append("OMatrix %s %s" % (qll(pt["matrix"][0]), qlist(pt["matrix"][1])))
                 for le in case.get("lerp", []):
